@@ -632,7 +632,7 @@ func runElectionProperty(t *testing.T, prop, test string) {
 			run(c, t.Fatalf)
 		}
 	}
-	rapid.Check(t, func(rt *rapid.T) { run(genECase(rt), rt.Fatalf) })
+	checkBudget(t, func(rt *rapid.T) { run(genECase(rt), rt.Fatalf) })
 }
 
 // TestC09 — bootstrap elects the most up-to-date replica after a majority registered.
